@@ -228,6 +228,11 @@ def deterministic_case(ctx, workdir: str, params: dict) -> None:
         if isinstance(result, LogicalDeadlock):
             ctx.violation("context-deadlock", f"the loop ran dry (logical deadlock) in {case}", case)
             return
+        if isinstance(result, BaseException):
+            from ..harness import scenario_exception
+
+            scenario_exception(ctx, result, case, "context-scenario")
+            return
         ctx.case(tuple(sorted(case.items())), nontrivial=not (params["k"] == 0 and params["mode"] == "normal"), sample=case)
         ctx.obs("loop-iterations", loop.iterations)
         for record in loop.records:
@@ -285,6 +290,11 @@ def connect_failure_case(ctx, workdir: str, name: str, file_state: str) -> None:
     ctx.clause("connect-failure-propagates")
     if isinstance(result, LogicalDeadlock):
         ctx.violation("context-deadlock", f"logical deadlock in {case}", case)
+        return
+    if isinstance(result, BaseException):
+        from ..harness import scenario_exception
+
+        scenario_exception(ctx, result, case, "connect-failure-scenario")
         return
     observed = result["observed"]
     want_type = asyncio.TimeoutError if name == "timeout" else type(result["want"])
@@ -356,6 +366,11 @@ def cancelled_exit_case(ctx, workdir: str, transport_kind: str, k: int, how: str
     ctx.clause("exit-through-cancellation")
     if isinstance(result, LogicalDeadlock):
         ctx.violation("context-deadlock", f"logical deadlock in {case}", case)
+        return
+    if isinstance(result, BaseException):
+        from ..harness import scenario_exception
+
+        scenario_exception(ctx, result, case, "cancelled-exit-scenario")
         return
     state = result["state"]
     if not state.get("entered") or "final" not in state:
@@ -562,6 +577,11 @@ def builtin_connect_failure_case(ctx, workdir: str, name: str) -> None:
     ctx.case(("builtin-connect-fail", name), sample=case)
     if isinstance(result, LogicalDeadlock):
         ctx.violation("context-deadlock", f"logical deadlock in {case}", case)
+        return
+    if isinstance(result, BaseException):
+        from ..harness import scenario_exception
+
+        scenario_exception(ctx, result, case, "builtin-connect-failure-scenario")
         return
     ctx.clause("connect-failure-propagates")
     reference, observed = result["reference"], result["observed"]
@@ -784,6 +804,49 @@ def second_session_case(ctx, workdir: str, transport_kind: str, k: int) -> None:
         return
     for key, what in result["problems"]:
         ctx.violation(key, what, case)
+
+
+def exact_cadence_case(ctx, workdir: str, periods: int) -> None:
+    """'At least every 15 minutes', to the second: on the virtual clock file operations take no time, so a change made one
+    second after the n-th save must be on disk 900.5 s after that save - a period of 901 s is already too long."""
+    from aiomysensors.gateway import Config, Gateway
+    from aiomysensors.model.node import Node
+
+    path = os.path.join(workdir, "exact.json")
+    prepare_file(path, "missing")
+    case = {"engine": "vloop", "exact_cadence_periods": periods}
+
+    async def scenario() -> dict:
+        problems = []
+        gateway = Gateway(ScriptedTransport(), Config(persistence_file=path))
+        loop = asyncio.get_running_loop()
+        async with gateway:
+            start = loop.time()
+            for period in range(1, periods + 1):
+                await asyncio.sleep(start + (period - 1) * SAVE_BOUND + 1 - loop.time())
+                gateway.nodes[100 + period] = Node(100 + period, 17, "2.0", heartbeat=period)
+                await asyncio.sleep(start + period * SAVE_BOUND + 0.5 - loop.time())
+                status, disk = registry_on_disk(path)
+                if status != "ok" or disk != typed(snap(gateway.nodes)):
+                    problems.append(("periodic-save-too-late", f"a change made 1 s after save #{period} is not on disk "
+                                                               f"{SAVE_BOUND}.5 virtual seconds after that save (file {status})"))
+                    break
+        for t in [t for t in asyncio.all_tasks() if t is not asyncio.current_task()]:
+            t.cancel()
+        return {"problems": problems}
+
+    result, _loop = run_virtual(scenario)
+    ctx.case(("exact-cadence", periods), sample=case)
+    ctx.clause("cadence-to-the-second", periods)
+    if isinstance(result, LogicalDeadlock):
+        ctx.violation("context-deadlock", f"logical deadlock in {case}", case)
+    elif isinstance(result, BaseException):
+        from ..harness import scenario_exception
+
+        scenario_exception(ctx, result, case, "exact-cadence")
+    else:
+        for key, what in result["problems"]:
+            ctx.violation(key, what, case)
 
 
 def changed_file_between_sessions_case(ctx, workdir: str, transport_kind: str, variant: str) -> None:
@@ -1083,6 +1146,11 @@ def cadence_case(ctx, workdir: str, hours: int, seed: int) -> None:
     if isinstance(result, LogicalDeadlock):
         ctx.violation("context-deadlock", f"logical deadlock in {case}", case)
         return
+    if isinstance(result, BaseException):
+        from ..harness import scenario_exception
+
+        scenario_exception(ctx, result, case, "cadence-scenario")
+        return
     ctx.clause("cadence-poll", result["checks"])
     ctx.obs("virtual-seconds", int(result["virtual_seconds"]))
     for key, what in result["problems"][:3]:
@@ -1263,6 +1331,8 @@ def run_case(ctx, case: dict) -> None:
             cancelled_exit_case(ctx, workdir, case["transport"], case["k"], case["cancelled_exit"], case["file"])
         elif "builtin_connect_failure" in case:
             builtin_connect_failure_case(ctx, workdir, case["builtin_connect_failure"])
+        elif "exact_cadence_periods" in case:
+            exact_cadence_case(ctx, workdir, case["exact_cadence_periods"])
         elif "changed_file_between_sessions" in case:
             changed_file_between_sessions_case(ctx, workdir, case["transport"], case["changed_file_between_sessions"])
         elif "multi_loop_sessions" in case:
@@ -1346,6 +1416,8 @@ def run(ctx) -> None:
             for i, (n, c) in enumerate([(150, 60), (60, 20)] + ([(200, 100), (250, 30)] if not ctx.quick else [])):
                 if ctx.mine(i + 3):
                     live_traffic_case(ctx, workdir, n, c, ctx.seed * 100 + i)
+            if ctx.shard_index == (3 % ctx.shard_count):
+                exact_cadence_case(ctx, workdir, ctx.pick(4, 40))
             hours = ctx.pick(10, 100)
             if ctx.shard_index < 4:
                 cadence_case(ctx, workdir, hours, ctx.seed * 100 + ctx.shard_index)
